@@ -268,7 +268,14 @@ static void run_matrix(void) {
     park_in_cb = 1;
     m_mod_ps_tell(victim, victim, &payload_token[2], 0);
     for (int i = 0; i < 50 && park_in_cb; i++) m_ctx_dispatch();
-    if (park_in_cb) { printf("FAIL HARNESS/matrix | the victim's callback never ran\n"); _exit(2); }
+    if (park_in_cb) {
+        /* the victim did not get the message its own context sent it: something the foreign threads did took effect
+         * (e.g. it was stopped); let them through the second round all the same */
+        park_in_cb = 0;
+        matrix_fail++; printf("FAIL C14/foreign-call-had-effect | the victim (state %d) no longer receives messages of its own context after the foreign calls\n", m_mod_state(victim));
+        pthread_barrier_wait(&bar);
+        pthread_barrier_wait(&bar);
+    }
     if (m_mod_state(victim) != M_MOD_RUNNING) { matrix_fail++; printf("FAIL C14/foreign-call-had-effect | victim state is %d after the foreign calls made during its callback\n", m_mod_state(victim)); }
     if (m_mod_src_len(victim, M_SRC_TYPE_END) != len0) { matrix_fail++; printf("FAIL C14/foreign-call-had-effect | victim source count changed %zd -> %zd (calls made during its callback)\n", len0, m_mod_src_len(victim, M_SRC_TYPE_END)); }
     for (int i = 0; i < 3; i++) m_ctx_dispatch();
